@@ -326,8 +326,22 @@ class SiteExecutor(B.C19Executor):
         return super().get_index(st, base, idx, node)
 
     def converts(self, nodes):
-        return any(isinstance(n, ast.Call) and isinstance(n.func, ast.Name) and n.func.id == "omml_to_latex"
-                   for b in nodes for n in ast.walk(b))
+        return any(_calls(b, "omml_to_latex") for b in nodes)
+
+    def e_Dict(self, n, st):
+        if self.site_mode() and not n.keys:
+            # an empty dict in these functions can only become an id-keyed map (`d[id(x)] = x`, `id(x) in d`): modelled as the
+            # set of its keys; any other use leaves the model (Unsupported -> bounded stand-in)
+            return [(st, VRef(st.alloc(HeapObj("idset", {"arr": z3.K(El, z3.BoolVal(False))}), self.refs)))]
+        return super().e_Dict(n, st)
+
+    def store_index(self, st, base, idx, v, node):
+        if isinstance(base, VRef) and st.obj(base.ref).kind == "idset":
+            if not isinstance(idx, VElemId):
+                raise Unsupported(f"{self.loc(node)} id-keyed map with another key")
+            st.wobj(base.ref).data = {"arr": z3.Store(st.obj(base.ref).data["arr"], idx.t, z3.BoolVal(True))}
+            return [st]
+        return super().store_index(st, base, idx, v, node)
 
     def havoc_loop(self, st, nodes, accs):
         super().havoc_loop(st, nodes, accs)
